@@ -391,7 +391,13 @@ def c2s(ctx, ntables, nsessions):
     for i in range(nsessions):
         obs.append(run_session(*rand_session(ctx.rng)))
     ctx.evals += sum(len(o['calls']) if o['op'] == 'session' else 1 for o in obs)
-    bad = ctx.validate('Trace_Inc', obs)
+    if nsessions <= 500:
+        bad = ctx.validate('Trace_Inc', obs)
+    else:       # a recorded history is ten times a single call: keep TLC's heap small, validate the histories in slices of their own
+        n1 = len(obs) - nsessions
+        bad = ctx.validate('Trace_Inc', obs[:n1])
+        for k in range(n1, len(obs), 500):
+            bad += [(i + k, c) for i, c in ctx.validate('Trace_Inc', obs[k:k + 500])]
     for i, clause in bad:
         o = obs[i - 1]
         if o['op'] == 'session':
